@@ -3,8 +3,11 @@
 
    [Matches dot p h gs] is the declarative glob relation over code points ("*" any sequence, "?"
    exactly one, others literal; gs = text matched by each wildcard).  [dot] is the set of code points
-   a wildcard may consume: [spec_dot] = all (the property), [impl_dot] = all but U+000A (the code,
-   finding C29-1).  Every theorem about the matcher holds for any [dot]. *)
+   a wildcard may consume: [spec_dot] = all (the property), [impl_dot] = today's code (all: the
+   regexp carries (?s) since fix 0f43e55), [old_dot] = the PRE-FIX code (all but U+000A, finding
+   C29-1, fixed).  Every theorem about the matcher and the route search holds for any [dot], in
+   particular for [impl_dot]; [impl_subst] is today's single-pass substituteBackendParams (fix
+   23c72fc), [old_subst] the pre-fix sequential ReplaceAll (findings C29-2, C29-3, fixed). *)
 From Coq Require Import List NArith Bool.
 From Verif Require Import Base.Text Model.Glob Proofs.C29.
 Import ListNotations.
@@ -96,31 +99,59 @@ Theorem C29_subst_simultaneous : forall gs ts,
 Proof. exact subst_simultaneous. Qed.
 Print Assumptions C29_subst_simultaneous.
 
-(* The implementation (regexp "." without (?s); sequential ReplaceAll) against the property.
-   Finding 1: equal to the spec matcher on every host without a line feed, different on the probe. *)
-Theorem C29_impl_match_eq_spec_off_trigger : forall s pattern,
-  has_lf s = false -> match_bytes impl_dot s pattern = match_bytes spec_dot s pattern.
-Proof. exact impl_match_eq_spec_off_trigger. Qed.
-Print Assumptions C29_impl_match_eq_spec_off_trigger.
+(* Today's code IS the spec: the matcher by definition of the regexp flags, the substitution for
+   every template and fewer than 10^9 groups (paramIndex refuses runs of more than nine digits). *)
+Theorem C29_match_impl_is_spec : forall s pattern,
+  match_bytes impl_dot s pattern = match_bytes spec_dot s pattern.
+Proof. exact match_impl_is_spec. Qed.
+Print Assumptions C29_match_impl_is_spec.
 
-Theorem C29_impl_match_refuted :
+Theorem C29_subst_impl_is_spec : forall t gs,
+  N.of_nat (length gs) < 1000000000 -> impl_subst t gs = spec_subst t gs.
+Proof. exact subst_impl_is_spec. Qed.
+Print Assumptions C29_subst_impl_is_spec.
+
+Theorem C29_impl_subst_simultaneous : forall gs ts,
+  N.of_nat (length gs) < 1000000000 ->
+  canonical (N.of_nat (length gs)) ts ->
+  impl_subst (render ts) gs = flat_map (expand gs) ts.
+Proof. exact impl_subst_simultaneous. Qed.
+Print Assumptions C29_impl_subst_simultaneous.
+
+(* on the three inputs of the fixed findings today's code gives the property's answer *)
+Theorem C29_impl_on_former_probes :
+  match_bytes impl_dot host_lf pat_lf = Some [[97; 10; 98]]
+  /\ impl_subst [36; 50] [[120]; [36; 49]] = [36; 49]
+  /\ impl_subst [104; 36; 49; 57] [[120]; [121]] = [104; 36; 49; 57].
+Proof. split; [exact impl_match_probe|]. destruct impl_subst_probes as [A [B _]]. split; assumption. Qed.
+Print Assumptions C29_impl_on_former_probes.
+
+(* Facts about the PRE-FIX code (history of the fixed findings).
+   Finding C29-1 (fixed by 0f43e55): the old matcher equals the spec on every host without a line
+   feed and differs on the probe. *)
+Theorem C29_old_match_eq_spec_off_trigger : forall s pattern,
+  has_lf s = false -> match_bytes old_dot s pattern = match_bytes spec_dot s pattern.
+Proof. exact old_match_eq_spec_off_trigger. Qed.
+Print Assumptions C29_old_match_eq_spec_off_trigger.
+
+Theorem C29_old_match_refuted :
   has_lf host_lf = true
-  /\ match_bytes impl_dot host_lf pat_lf = None
+  /\ match_bytes old_dot host_lf pat_lf = None
   /\ match_bytes spec_dot host_lf pat_lf = Some [[97; 10; 98]].
-Proof. exact impl_match_refuted. Qed.
-Print Assumptions C29_impl_match_refuted.
+Proof. exact old_match_refuted. Qed.
+Print Assumptions C29_old_match_refuted.
 
-(* Findings 2 and 3: "$2" with ["x";"$1"] and "h$19" with ["x";"y"].  (Agreement of impl_subst and
-   spec_subst off the two triggers is checked exhaustively on a bounded domain only, see
-   Proofs.C29.impl_subst_eq_spec_off_trigger_bounded, and on every generated case by the judge.) *)
-Theorem C29_impl_subst_refuted :
+(* Findings C29-2 and C29-3 (fixed by 23c72fc): "$2" with ["x";"$1"] and "h$19" with ["x";"y"] under
+   the old sequential ReplaceAll.  (Its agreement with the spec off the two triggers was checked
+   exhaustively on a bounded domain only: Proofs.C29.old_subst_eq_spec_off_trigger_bounded.) *)
+Theorem C29_old_subst_refuted :
   (let t := [36; 50] in let gs := [[120]; [36; 49]] in
-   rescans t gs = true /\ impl_subst t gs = [120] /\ spec_subst t gs = [36; 49])
+   rescans t gs = true /\ old_subst t gs = [120] /\ spec_subst t gs = [36; 49])
   /\
   (let t := [104; 36; 49; 57] in let gs := [[120]; [121]] in
-   ref_then_digit 2 t = true /\ impl_subst t gs = [104; 120; 57] /\ spec_subst t gs = t).
-Proof. exact impl_subst_refuted. Qed.
-Print Assumptions C29_impl_subst_refuted.
+   ref_then_digit 2 t = true /\ old_subst t gs = [104; 120; 57] /\ spec_subst t gs = t).
+Proof. exact old_subst_refuted. Qed.
+Print Assumptions C29_old_subst_refuted.
 
 (* non-vacuity: a pattern with two admissible splits, the lazy one is chosen; a route list in which
    the first route does not match, the second route's second pattern does, Forge suffix and dots
